@@ -98,11 +98,15 @@ def ensure_build(repo=None):
             open(marker, "w").write(key)
             shutil.rmtree(os.path.join(dst, "build"), ignore_errors=True)
             log(f"[build] done in {time.time()-t0:.0f}s")
-        # drop other hashes
-        for d in os.listdir(CACHE):
-            p = os.path.join(CACHE, d)
-            if os.path.isdir(p) and d != key:
-                shutil.rmtree(p, ignore_errors=True)
+        # keep only the few most recently used builds
+        os.utime(marker)
+        keep = int(os.environ.get("VERIF_KEEP_BUILDS", "2"))
+        ds = [d for d in os.listdir(CACHE) if os.path.isdir(os.path.join(CACHE, d))]
+        ds.sort(key=lambda d: os.path.getmtime(os.path.join(CACHE, d, ".built")) if os.path.exists(os.path.join(CACHE, d, ".built")) else 0,
+                reverse=True)
+        for d in ds[keep:]:
+            if d != key:
+                shutil.rmtree(os.path.join(CACHE, d), ignore_errors=True)
     return dst
 
 
